@@ -79,7 +79,14 @@ fn decode(tape: &[u32]) -> Case {
     let calls: Vec<(usize, usize)> = if pairs.is_empty() {
         vec![]
     } else {
-        (0..ncalls).map(|_| if !proper.is_empty() && t.chance(4, 5) { proper[t.pick(proper.len())] } else { pairs[t.pick(pairs.len())] }).collect()
+        (0..ncalls)
+            .map(|i| {
+                let (a, b) = if !proper.is_empty() && t.chance(4, 5) { proper[t.pick(proper.len())] } else { pairs[t.pick(pairs.len())] };
+                // one later call in eight names its layers in decreasing order (outside a <= b: the library refuses it;
+                // whatever it does, an earlier connection must not silently disappear)
+                if i > 0 && a < b && t.chance(1, 8) { (b, a) } else { (a, b) }
+            })
+            .collect()
     };
     let acc = ACCS[t.pick(5)];
     let gradient = t.chance(1, 3) && spec.input.iter().product::<usize>() <= 130; // (the derivative oracle is quadratic in the width)
@@ -94,12 +101,22 @@ fn check(case: &Case, ev: &mut CaseEv, tier: Tier) -> CheckResult {
 
     // (a) acceptance model
     let mut accepted: Vec<(usize, usize)> = Vec::new();
+    let mut reversed_accepted = false;
     for (a, b) in &case.calls {
         let (a, b) = (*a, *b);
         // sources pairwise distinct and targets pairwise distinct => must be accepted
-        let must_accept = accepted.iter().all(|(pa, pb)| *pa != a && *pb != b);
+        let must_accept = a <= b && accepted.iter().all(|(pa, pb)| *pa != a && *pb != b);
+        if a > b {
+            ev.class("connect call with decreasing indices (outside a <= b)");
+        }
         match catch(std::panic::AssertUnwindSafe(|| net.connect(a, b))) {
-            Ok(()) => accepted.push((a, b)),
+            Ok(()) => {
+                if a > b {
+                    reversed_accepted = true; // meaning undefined by the property: only the survival of earlier connections is checked
+                } else {
+                    accepted.push((a, b))
+                }
+            }
             Err(p) => {
                 if must_accept {
                     return Err(Fail::known(
@@ -122,6 +139,10 @@ fn check(case: &Case, ev: &mut CaseEv, tier: Tier) -> CheckResult {
     // debugging aid for collecting separate replays per root cause (not used by the registered checks)
     let focus = std::env::var("NVERIF_FOCUS").unwrap_or_default();
     if focus == "accept" {
+        return Ok(());
+    }
+    if reversed_accepted {
+        ev.class("a call with decreasing indices was accepted (forward model not applied)");
         return Ok(());
     }
     if accepted.is_empty() {
@@ -276,7 +297,7 @@ impl Prop for C16 {
         t.pick(200_000, 10_000_000)
     }
     fn rule(&self) -> String {
-        "tape-decoded 2-5-layer network (dense / convolution / deconvolution / max-pool, steered so that element counts repeat, flat<->spatial crossings occur; one case in 100 is a flat network of width 65-300 throughout, gradient-checked up to width 130) + 1-3 connect(a, b) calls drawn from all pairs a <= b with equal element counts (a = b, a = 0, repeated targets, repeated sources, chains (0,1),(1,2)) + one of five accumulations. Oracles: (a) acceptance model - calls with sources and targets distinct from earlier ones must be accepted, and after every accepted call all earlier pairs must still be present; (b) predict == hand-composition of the library's own layers where layer b receives acc(ordinary input, reshape(input of a)) (<= 2 ulp; when a source is itself a target both readings of 'its input' are accepted); (c) in 1/3 of the cases, additive accumulation and the C01 derivative check (f64 reference network with the skip connections) on every parameter gradient; in a third of those the network is first trained for two epochs with only the earlier connections and the last 1..n connections are added afterwards (history: build, connect, learn, connect, differentiate). Non-trivial: an accepted connection with a < b. Distinct = (architecture, accepted connections, accumulation).".into()
+        "tape-decoded 2-5-layer network (dense / convolution / deconvolution / max-pool, steered so that element counts repeat, flat<->spatial crossings occur; one case in 100 is a flat network of width 65-300 throughout, gradient-checked up to width 130) + 1-3 connect(a, b) calls drawn from all pairs a <= b with equal element counts (one later call in eight with its indices swapped: it may be refused, but must not make an earlier connection disappear) (a = b, a = 0, repeated targets, repeated sources, chains (0,1),(1,2)) + one of five accumulations. Oracles: (a) acceptance model - calls with sources and targets distinct from earlier ones must be accepted, and after every accepted call all earlier pairs must still be present; (b) predict == hand-composition of the library's own layers where layer b receives acc(ordinary input, reshape(input of a)) (<= 2 ulp; when a source is itself a target both readings of 'its input' are accepted); (c) in 1/3 of the cases, additive accumulation and the C01 derivative check (f64 reference network with the skip connections) on every parameter gradient; in a third of those the network is first trained for two epochs with only the earlier connections and the last 1..n connections are added afterwards (history: build, connect, learn, connect, differentiate). Non-trivial: an accepted connection with a < b. Distinct = (architecture, accepted connections, accumulation).".into()
     }
     fn run_case(&self, tape: &[u32], ev: &mut CaseEv) -> CheckResult {
         check(&decode(tape), ev, self.0)
